@@ -37,7 +37,7 @@ func runTimer(ops []string) []string {
 	expectFire := false
 	for _, op := range ops {
 		switch op {
-		case "Rs", "Rl", "Rz", "Rn":
+		case "Rs", "Rl", "Rz", "Rn", "Rm":
 			d := time.Millisecond
 			switch op {
 			case "Rl":
@@ -46,6 +46,8 @@ func runTimer(ops []string) []string {
 				d = 0 // a deadline that has just passed: fires at once
 			case "Rn":
 				d = -time.Millisecond
+			case "Rm":
+				d = time.Duration(1<<63 - 1) // parked: the longest duration there is
 			}
 			done := make(chan struct{})
 			tt := t
@@ -61,7 +63,7 @@ func runTimer(ops []string) []string {
 				}
 				return obs
 			}
-			expectFire = op != "Rl"
+			expectFire = op != "Rl" && op != "Rm"
 		case "W":
 			// wait for the 1 ms timer to have fired (poll; bounded), else a short pause
 			if expectFire {
@@ -146,7 +148,7 @@ func measureLatencyAfterPause(d, p time.Duration) int64 {
 	}
 }
 
-var opCoq = map[string]string{"Rs": "HReset true", "Rz": "HReset true", "Rn": "HReset true", "Rl": "HReset false", "W": "HWait", "T": "HTryRecv", "S": "HStop"}
+var opCoq = map[string]string{"Rs": "HReset true", "Rz": "HReset true", "Rn": "HReset true", "Rl": "HReset false", "Rm": "HReset false", "W": "HWait", "T": "HTryRecv", "S": "HStop"}
 
 func main() {
 	seed := flag.Int64("seed", 1, "")
@@ -264,12 +266,13 @@ func main() {
 		{"Rz", "W", "T", "Rs", "W", "Rl", "W", "T"},           // first armed with a deadline already passed, received; then fired and NOT read, then re-armed for long
 		{"Rn", "W", "T", "Rs", "W", "Rs", "W", "T", "W", "T"}, // same start, short re-arm: exactly one tick
 		{"Rz", "W", "T", "Rz", "W", "T", "Rs", "W", "Rl", "W", "T"},
-		{"Rs", "W", "T", "Rs", "W", "Rs", "W", "T", "W", "T"}, // same with a short re-arm: exactly one tick
+		{"Rm", "W", "T", "S", "Rs", "W", "T", "Rm", "W", "T", "Rs", "W", "T"}, // parked with the longest duration: never fires, Stop succeeds
+		{"Rs", "W", "T", "Rs", "W", "Rs", "W", "T", "W", "T"},                 // same with a short re-arm: exactly one tick
 	}
 	for _, c := range corpus {
 		timers = append(timers, timerCase{c, runTimer(c)})
 	}
-	alphabet := []string{"Rs", "Rl", "W", "T", "S", "Rz", "Rn", "Rs", "W", "T"}
+	alphabet := []string{"Rs", "Rl", "W", "T", "S", "Rz", "Rn", "Rs", "W", "T", "Rm"}
 	for i := 0; i < nt; i++ {
 		n := 1 + rng.Intn(14)
 		var ops []string
